@@ -96,7 +96,7 @@ func propDefs() map[string]*PropDef {
 	}
 	m["C04"] = &PropDef{
 		ID: "C04",
-		Funcs: append(wrapperFuncs([]string{"Prefix", "All", "restoreKey"}, safetyInc), append(seqFuncsOnly("lowestCommonParent", safetyInc), append(seqFuncsOnly("filter$1", append([]string{`/only_matching`, `/count`, `/every_child_pushed`}, safetyInc...)),
+		Funcs: append(wrapperFuncs([]string{"Prefix", "All", "restoreKey"}, safetyInc), append(seqFuncsOnly("lowestCommonParent", safetyInc), append(seqFuncsOnly("filter$1", append([]string{`/only_matching`, `/count`, `/order`, `/every_child_pushed`}, safetyInc...)),
 			FuncCheck{Fn: "(*alphaSortedTree[K,V]).Prefix$1", Layer: "C"}, FuncCheck{Fn: "(*collationSortedTree[K,V]).Prefix$1", Layer: "C"})...)...),
 		Floor: 150,
 		Assumptions: []string{
